@@ -112,6 +112,7 @@ def run(chk, ctx):
     chk.floor('C15.A', 1, 'scans')
     # positive control
     ctl = os.path.join(VERIF, 'selftest', 'controls')
+    tmp = None
     try:
         import shutil
         import tempfile
@@ -121,10 +122,12 @@ def run(chk, ctx):
                     os.path.join(tmp, 'pamqp', 'tz_local.py'))
         cprog = Program(tmp)
         cn, chits = scan_tz_calls(cprog, cprog.modules.values())
-        shutil.rmtree(tmp)
     except Exception as err:
         raise AnalysisError('positive control could not be analysed: %s' %
                             err)
+    finally:
+        if tmp is not None:
+            shutil.rmtree(tmp, ignore_errors=True)
     if len(chits) < 5:
         raise AnalysisError('positive control: only %d of 5 local-time '
                             'calls were flagged' % len(chits))
